@@ -59,9 +59,14 @@ class TlvHead(packet.Packet):
         formats.UInt16PayloadLenField('length', default=None),
     ]
 
+    def extract_padding(self, s):
+        ''' Only the sized value belongs to this item, later items follow. '''
+        return (s[:self.length], s[self.length:])
+
     def post_dissection(self, pkt):
         ''' Verify consistency of packet. '''
-        formats.verify_sized_item(self.length, self.payload)
+        # not including any padding, which is the later items
+        formats.verify_sized_item(self.length, self.payload.do_build())
         packet.Packet.post_dissection(self, pkt)
 
 
